@@ -1,15 +1,17 @@
 import RSocketModel.SendQueue
 namespace RSocketModel.SendQueue
 
-theorem pending_append (sid : Nat) (a b : Queue) : pending sid (a ++ b) = pending sid a ++ pending sid b := by
+variable {β : Type}
+
+theorem pending_append (sid : Nat) (a b : Queue β) : pending sid (a ++ b) = pending sid a ++ pending sid b := by
   simp [pending, List.filter_append, List.flatMap_append]
 
-theorem pending_cons (sid : Nat) (h : Src) (t : Queue) :
+theorem pending_cons (sid : Nat) (h : Src β) (t : Queue β) :
     pending sid (h :: t) = (if h.sid == sid then h.frags else []) ++ pending sid t := by
   simp only [pending, List.filter_cons]
   split <;> simp
 
-theorem pending_cycle (sid x : Nat) (q : Queue) : pending sid (cycle x q) = pending sid q := by
+theorem pending_cycle (sid x : Nat) (q : Queue β) : pending sid (cycle x q) = pending sid q := by
   unfold cycle
   rw [pending_append]
   simp only [pending, List.filter_filter]
@@ -32,16 +34,16 @@ theorem pending_cycle (sid x : Nat) (q : Queue) : pending sid (cycle x q) = pend
       · simp [ha]
     rw [h1, h2]; simp
 
-theorem wireOf_append (sid : Nat) (a b : List (Nat × Nat)) : wireOf sid (a ++ b) = wireOf sid a ++ wireOf sid b := by
+theorem wireOf_append (sid : Nat) (a b : List (Nat × β)) : wireOf sid (a ++ b) = wireOf sid a ++ wireOf sid b := by
   simp [wireOf, List.filter_append]
 
-theorem wireOf_single (sid s f : Nat) : wireOf sid [(s, f)] = if s == sid then [f] else [] := by
+theorem wireOf_single (sid s : Nat) (f : β) : wireOf sid [(s, f)] = if s == sid then [f] else [] := by
   simp only [wireOf, List.filter_cons, List.filter_nil]
   split <;> simp
 
 /-- a sender step moves one fragment of one stream from `pending` to the wire and touches no
 other stream -/
-theorem step_preserves (sid : Nat) (s : State) :
+theorem step_preserves (sid : Nat) (s : State β) :
     wireOf sid (step s).wire ++ pending sid (step s).queue = wireOf sid s.wire ++ pending sid s.queue := by
   unfold step
   cases hq : s.queue with
@@ -59,14 +61,14 @@ theorem step_preserves (sid : Nat) (s : State) :
         simp only [wireOf_append, wireOf_single, pending_cycle, pending_cons, hf, List.append_assoc] <;>
           (by_cases hs : h.sid = sid <;> simp [hs])
 
-theorem queuedFor_append (sid : Nat) (a b : List Ev) : queuedFor sid (a ++ b) = queuedFor sid a ++ queuedFor sid b := by
+theorem queuedFor_append (sid : Nat) (a b : List (Ev β)) : queuedFor sid (a ++ b) = queuedFor sid a ++ queuedFor sid b := by
   induction a with
   | nil => rfl
   | cons e es ih => cases e <;> simp [queuedFor, ih]
 
 /-- legality of an event sequence from a state: sources have at least one fragment, and a
 priority frame is only queued for a stream that has nothing queued -/
-def Legal : State → List Ev → Prop
+def Legal : State β → List (Ev β) → Prop
   | _, [] => True
   | s, ev :: es =>
     (match ev with
@@ -74,7 +76,7 @@ def Legal : State → List Ev → Prop
       | .enqFront src => src.frags ≠ [] ∧ pending src.sid s.queue = []
       | .step => True) ∧ Legal (apply s ev) es
 
-theorem run_order (sid : Nat) (evs : List Ev) : ∀ s, Legal s evs →
+theorem run_order (sid : Nat) (evs : List (Ev β)) : ∀ s, Legal s evs →
     wireOf sid (run s evs).wire ++ pending sid (run s evs).queue
       = wireOf sid s.wire ++ pending sid s.queue ++ queuedFor sid evs := by
   induction evs with
@@ -101,11 +103,11 @@ theorem run_order (sid : Nat) (evs : List Ev) : ∀ s, Legal s evs →
       simp only [apply, queuedFor]
       rw [step_preserves]
 
-def AllNonempty (q : Queue) : Prop := ∀ src ∈ q, src.frags ≠ []
+def AllNonempty (q : Queue β) : Prop := ∀ src ∈ q, src.frags ≠ []
 
-theorem total_append (a b : Queue) : total (a ++ b) = total a + total b := by simp [total]
+theorem total_append (a b : Queue β) : total (a ++ b) = total a + total b := by simp [total]
 
-theorem total_cycle (x : Nat) (q : Queue) : total (cycle x q) = total q := by
+theorem total_cycle (x : Nat) (q : Queue β) : total (cycle x q) = total q := by
   unfold cycle
   rw [total_append]
   induction q with
@@ -116,12 +118,12 @@ theorem total_cycle (x : Nat) (q : Queue) : total (cycle x q) = total q := by
     · simp [hx, total] at ih ⊢; omega
     · simp [hx, total] at ih ⊢; omega
 
-theorem allNonempty_cycle (x : Nat) (q : Queue) (h : AllNonempty q) : AllNonempty (cycle x q) := by
+theorem allNonempty_cycle (x : Nat) (q : Queue β) (h : AllNonempty q) : AllNonempty (cycle x q) := by
   intro src hs
   simp only [cycle, List.mem_append, List.mem_filter] at hs
   rcases hs with hs | hs <;> exact h src hs.1
 
-theorem step_total (s : State) (hne : s.queue ≠ []) (hall : AllNonempty s.queue) :
+theorem step_total (s : State β) (hne : s.queue ≠ []) (hall : AllNonempty s.queue) :
     total (step s).queue + 1 = total s.queue ∧ AllNonempty (step s).queue ∧
       (step s).wire.length = s.wire.length + 1 := by
   unfold step
@@ -146,7 +148,7 @@ theorem step_total (s : State) (hne : s.queue ≠ []) (hall : AllNonempty s.queu
           · simp
           · exact hall src (by simp [hs])
 
-theorem total_zero (q : Queue) (hall : AllNonempty q) (h0 : total q = 0) : q = [] := by
+theorem total_zero (q : Queue β) (hall : AllNonempty q) (h0 : total q = 0) : q = [] := by
   cases q with
   | nil => rfl
   | cons h t =>
